@@ -107,13 +107,16 @@ def main(argv=None):
             mod.run(rec, a.tier, seed)
             # determinism: re-execute stored sample cases twice in this process
             det = 0
-            for case in rec.samples[:2]:
+            for case in ([] if rec.nviol else rec.samples[:2]):      # (with violations on record the verdict does not rest on the samples)
                 o = []
                 for _ in range(2):
                     r = Rec(pid)
                     mod.replay(r, case)
                     o.append(jdump([sorted(r.outcomes), r.c, [[v['msg'], v['tags']] for v in r.viols]]))
                 if o[0] != o[1]:
+                    if getattr(mod, 'NONDETERMINISM_IS_A_FINDING', False):
+                        rec.fail(case, 'the same input evaluated twice gives different observations: the code under test is not deterministic', {'kind': 'nondeterministic'})
+                        break
                     print('HARNESS-ERROR %s: sample case is not deterministic: %s' % (pid, jdump(case)))
                     return 2
                 det += 1
